@@ -5,6 +5,8 @@
     Coq — validates it against the serial specification below (see DESIGN.md: this part is
     validation of each observed execution, not a proof about all schedules of the engine). *)
 From RL Require Import Model.Serial Proofs.SerialP.
+From RL Require Import Model.Store Model.Conc Model.ConcSerial Proofs.ConcSerialP.
+From Coq Require Import Permutation.
 
 (** an accepted certificate is a serial execution that respects every session's order and
     reproduces every observed result *)
@@ -21,6 +23,29 @@ Proof. exact independent_statements_commute. Qed.
 Theorem a_statement_touches_only_its_table : forall s st t, t <> table_of st -> lookup t (fst (exec s st)) = lookup t s.
 Proof. exact exec_other_table. Qed.
 
+(** ** the engine's protocol on one table (Model/Conc.v, tied to the code by C09's correspondence).
+    For EVERY interleaving of its events — INSERT commits, DELETE statements pinning their snapshot,
+    taking the table lock and committing or failing, compactor passes locking, pinning, committing
+    and unlocking — the table ends in the state of the SERIAL execution of the acknowledged
+    statements, taken in the order of the ghost log: an INSERT at its commit, a DELETE at the point
+    where its scan pinned its snapshot.  That order respects real time (a statement that starts
+    after another was acknowledged comes after it). *)
+Theorem every_interleaving_leaves_a_serial_state : forall es g, grun g_init es = Some g ->
+  Permutation (disk_scan (c_tbl (g_s g))) (serial_run (g_log g)).
+Proof. exact final_state_is_serial. Qed.
+(** the ghost log restricts nothing and lists exactly the statements of the run, in their order *)
+Theorem ghost_log_is_faithful : forall es,
+  (forall s, run c_init es = Some s -> exists g, grun g_init es = Some g /\ g_s g = s) /\
+  (forall g, grun g_init es = Some g -> run c_init es = Some (g_s g) /\ map erase (g_log g) = stmts_of es []).
+Proof. exact ghost_log_faithful. Qed.
+(** known finding KF_C10_concurrent_delete_double_count: the COUNTS reported by two overlapping
+    DELETEs of the same row are not those of that (or any) serial execution; the content is *)
+Theorem delete_counts_are_not_serial_refuted :
+  exists es g, grun g_init es = Some g /\
+    reported_counts (g_log g) = [(1, 1); (0, 1)] /\ serial_counts (g_log g) = [(1, 0); (0, 1)] /\
+    disk_scan (c_tbl (g_s g)) = [] /\ serial_run (g_log g) = [].
+Proof. exact delete_counts_not_serial. Qed.
+
 (** non-vacuity: two sessions racing on one table; two different orders explain two different observations *)
 Example hypotheses_hold :
   let ss := [[SCreate 1; SInsert 1 [1; 2]; SCount 1]; [SInsert 1 [3]; SDelete 1 [1; 3]]] in
@@ -31,3 +56,6 @@ Proof. split; reflexivity. Qed.
 Print Assumptions accepted_certificate_is_a_serial_explanation.
 Print Assumptions statements_on_different_tables_commute.
 Print Assumptions a_statement_touches_only_its_table.
+Print Assumptions every_interleaving_leaves_a_serial_state.
+Print Assumptions ghost_log_is_faithful.
+Print Assumptions delete_counts_are_not_serial_refuted.
